@@ -149,6 +149,10 @@ def cases(tier, seed, args):
                         continue
                     out.append(dict(t='inlinepa', K=K, T=T, ms=list(ms), me=list(me), w=[1 + (n + k) % 3 for k in range(K)],
                                     F=1 + n % 2))
+    if prop == 'inlinepaf':
+        for i in range(12 if q else 80):
+            out.append(dict(t='inlinepaf', K=3 + (i // 6) % 2, T=int(rng.integers(5, 10)), F=2 + i % 2, seed=int(rng.integers(1 << 30)),
+                            outlier=bool(i % 2)))
     if prop == 'C09':
         n = 70 if q else 700
         for i in range(n):
@@ -392,6 +396,42 @@ def run_case(case):
         return domain_case(case)
     if t == 'domain_single':
         return domain_single(case)
+    if t == 'inlinepaf':
+        # float problems with frames on very different likelihood scales: the criterion of every permutation is evaluated here
+        # with a per-frame stable logsumexp (NumPy, trusted), the trace specification decides optimality
+        import itertools as _it
+        rng = np.random.default_rng(case['seed'])
+        K, T, F = case['K'], case['T'], case['F']
+        sp = 3.0 * rng.normal(size=(F, K, T))
+        se = 3.0 * rng.normal(size=(F, K, T))
+        if case['outlier']:
+            # the last frames are outliers for every spectral class (-2000 nats) and prefer another pairing, strongly
+            se[:, :, -2:] += -2000.0
+            cyc = np.roll(np.arange(K), 1)
+            for f in range(F):
+                sp[f, :, -2:] = 0.0
+                se[f, :, -2:] = -2000.0
+                for k in range(K):
+                    sp[f, cyc[k], -2:] += 40.0 * (k + 1)
+                    se[f, k, -2:] += 40.0 * (k + 1)
+        w = rng.uniform(0.5, 1.5, size=K)
+        w = w / w.sum()
+        out, exc = call(mmu.log_pdf_to_affiliation_for_integration_models_with_inline_pa, w[None, :, None], sp, se)
+        perms = list(_it.permutations(range(K)))
+        recs = []
+        for f in range(F):
+            Q, chosen = [], []
+            for pi_, p in enumerate(perms):
+                lp = sp[f, list(p), :] + se[f] + np.log(w)[:, None]
+                mx = lp.max(0, keepdims=True)
+                lse = mx[0] + np.log(np.exp(lp - mx).sum(0))
+                Q.append(float(lse.sum()))
+                post = np.exp(lp - lse[None])
+                if out is not None and np.allclose(out[f], post, rtol=1e-9, atol=1e-12):
+                    chosen.append(pi_ + 1)
+            recs.append(dict(kind='inlinepaf', Q=[enc.flt(x) for x in Q], chosen=chosen, exc=exc,
+                             fp=f'fn=inline_pa_integration;float;outlier={case["outlier"]}', key=f'ipaf:{case["seed"]}:{f}'))
+        return recs
     if t == 'inlinepa':
         K, T, F = case['K'], case['T'], case['F']
         ms = np.array(case['ms']).reshape(K, T)
